@@ -92,13 +92,13 @@ def gen_cases(rng, tier, escalate=False):
 
     # every delivery order of small scripts (3 peers)
     for _ in range(10 * k):
-        add(cg.struct_script(rng, 3, "tiny"), mode="explore", max_paths=400 if thorough else 60, max_depth=18, max_terms=4)
+        add(cg.struct_script(rng, 3, "tiny"), mode="explore", max_paths=3000 if thorough else 60, max_depth=18, max_terms=4)
     for _ in range(6 * k):
-        add(cg.struct_script(rng, 3, "small"), mode="explore", max_paths=300 if thorough else 40, max_depth=26, max_terms=3)
+        add(cg.struct_script(rng, 3, "small"), mode="explore", max_paths=1500 if thorough else 40, max_depth=26, max_terms=3)
     for _ in range(3 * k):
-        add(cg.fold_script(rng, 3), mode="explore", max_paths=200 if thorough else 30, max_depth=30, max_terms=3)
+        add(cg.fold_script(rng, 3), mode="explore", max_paths=800 if thorough else 30, max_depth=30, max_terms=3)
     for _ in range(3 * k):
-        add(cg.map_script(rng, 3), mode="explore", max_paths=200 if thorough else 30, max_depth=26, max_terms=3)
+        add(cg.map_script(rng, 3), mode="explore", max_paths=800 if thorough else 30, max_depth=26, max_terms=3)
     # random schedules with duplicates and re-deliveries
     for _ in range(40 * k):
         sz = rng.choice(["small", "small", "big"])
@@ -125,7 +125,7 @@ def gen_cases(rng, tier, escalate=False):
         for p in range(n):
             cross.append({"peer": p, "prev": ["a", p], "cur": ["b", p], "script": "a"})
             cross.append({"peer": p, "prev": ["b", p], "cur": ["a", (p + 1) % n], "script": "a"})
-        add(c, ops=airgen.fifo_schedule(12), ops_b=cg.random_schedule(rng, 20, n, dup=0.0, redeliver=0.0, idle=0.0), cross=cross, max_terms=4)
+        add(c, ops=airgen.fifo_schedule(12), ops_b=cg.random_schedule(rng, 20, n, dup=0.0, redeliver=0.0, idle=0.0), cross=cross, max_terms=3)
     for _ in range(12 * k):
         c = cg.forge_case(rng, 3)
         n = len(c["peers"])
@@ -134,7 +134,7 @@ def gen_cases(rng, tier, escalate=False):
         # ... and a peer holding A's data given B's data, under either script (two results, two executors)
         cross += [{"peer": p, "prev": ["a", h], "cur": ["b", (h + d) % n], "script": sc} for p in range(n) for h in range(n)
                   for d in (0, 1) for sc in ("a", "b")]
-        add(c, ops=airgen.fifo_schedule(10), ops_b=airgen.fifo_schedule(10), cross=cross, max_terms=6)
+        add(c, ops=airgen.fifo_schedule(10), ops_b=airgen.fifo_schedule(10), cross=cross, max_terms=5)
     return cases
 
 
@@ -194,7 +194,7 @@ def evaluate(cases, result, tier):
         return
     fails, errs = vlib.coq_eval_cases("C11", HEADER, "case_t",
                                       {"model": "check_case_c11", "oracle_run": "c11_run_oracle", "supported": "supported_c11"},
-                                      terms, shard_size=25)
+                                      terms, shard_size=max(20, -(-len(terms) // vlib.NPROC)), timeout=1800)
     result["errors"].extend(errs)
     bump("model runs: compared", len(terms) - len(fails.get("supported", [])))
     bump("model runs: unsupported by the model (not compared)", len(fails.get("supported", [])))
